@@ -91,6 +91,15 @@ class FunctionSites(ast.NodeVisitor):
                     fresh.add(name)
                     changed = True
         self.fresh = fresh
+        # names only ever bound to numeric / string literals or arithmetic on them
+        scal = set()
+        for name, vals in binds.items():
+            if vals and all(
+                (not isinstance(v, tuple)) and v is not None and isinstance(v, (ast.Constant, ast.JoinedStr, ast.BinOp, ast.UnaryOp))
+                for v in vals
+            ):
+                scal.add(name)
+        self.scalars = scal
 
     def _elements_fresh(self, name, binds):
         for v in binds.get(name, []):
@@ -141,6 +150,9 @@ class FunctionSites(ast.NodeVisitor):
     def visit_AugAssign(self, node):
         if isinstance(node.target, (ast.Attribute, ast.Subscript)):
             self._store(node.target, node)
+        elif isinstance(node.target, ast.Name) and node.target.id not in self.fresh and node.target.id not in self.scalars:
+            # `x op= y` mutates x in place when x is an ndarray / list bound to a shared object
+            self._site(node, "augmented-assignment")
         self.generic_visit(node)
 
     def visit_Delete(self, node):
@@ -150,6 +162,13 @@ class FunctionSites(ast.NodeVisitor):
         self.generic_visit(node)
 
     def visit_Call(self, node):
+        # numpy-style in-place requests: out=..., copy=False, where= on a ufunc
+        for kw in node.keywords:
+            if kw.arg == "out" or (kw.arg == "copy" and isinstance(kw.value, ast.Constant) and kw.value.value is False):
+                self._site(node, "in-place-keyword")
+        fname = ast.unparse(node.func)
+        if fname.split(".")[-1] in ("put", "place", "copyto", "putmask", "fill_diagonal", "shuffle", "setattr", "delattr"):
+            self._site(node, "mutating-function")
         f = node.func
         if isinstance(f, ast.Attribute) and f.attr in MUTATING_METHODS:
             recv = f.value
